@@ -3,6 +3,7 @@ import logging
 import sys
 from pathlib import Path
 
+from a816.parse.ast.expression import eval_expression_str
 from a816.program import Program
 
 logger = logging.getLogger("x816")
@@ -39,7 +40,7 @@ def cli_main() -> None:
     if args.defines:
         for item in args.defines:
             key, value = item.split("=", 1)
-            program.resolver.current_scope.add_symbol(key, value)
+            program.resolver.current_scope.add_symbol(key, eval_expression_str(value, program.resolver))
 
     if args.format == "ips":
         exit_code = program.assemble_as_patch(args.input_file, args.output_file, args.mapping, args.copier_header)
